@@ -15,6 +15,34 @@ NA = {
 }
 PLANNED = ["C02","C05","C06","C09","C11","C12","C13","C15","C17","C18","C20"]
 CHECKS = {
+ "C02": ("exploration",
+   "seeded delivery schedules of a weighted set through every entry point (hash_item, weighted-set iterator, IndexMap, HashMap whose iteration order is chosen by a seeded BuildHasher) with reordering, duplicates, late re-delivery and batch splits, for all four variants and all key types; oracles on the real code: replica == canonical delivery, re-inserted pair changes nothing, ProbMinHash3 == 3a, 2^k weight scaling, every position holds an item of the set, union positions come from one side; a divergence is accepted as exact tie only if registers (guarded hook) are bit-equal and both items attain them alone. Known finding K1 (bottom-of-range weights) is listed, not repaired; sampling, not proof",
+   "weights and scalings keep race values normal except in the dedicated bottom-of-range sub-scenario (key tiny-weights); std HashMap<_,_,RandomState> input of ProbMinHash2 is observed, not controlled",
+   TECH + ": seeded delivery-schedule search with seeded map iteration order, replica-equality and metamorphic oracles"),
+ "C11": ("exploration",
+   "one multiset delivered as a sequence and as permutations (reversal, rotation, adjacent swap, random) to the same instance after unrelated earlier calls; per position the selected (element, occurrence) pairs, read through a guarded hook, must be identical, and for l = 1 the public signatures must be identical; sampling, not proof",
+   "selected indices come from the guarded hook verif_selected(); exact f64 ties of race values are not generated on purpose",
+   TECH + ": seeded reordering of a fixed multiset, selection-equality oracle"),
+ "C12": ("exploration",
+   "the same job executed by replicas in one thread, in several real OS threads under a seeded token scheduler (one operation at a time, constructions included; interleaving replayable) with ambient-state perturbations between operations, and in child processes (fresh ASLR, RandomState keys, MALLOC_PERTURB_); all sketcher types and key types; oracle = bit-identical outputs; sampling, not proof",
+   "process-level nondeterminism is observed, not controlled: it is used only with an equality oracle that holds on every execution of correct code; a failure that shows only across processes may not replay",
+   TECH + ": seeded token scheduler over real threads + child processes, replica-equality oracle"),
+ "C13": ("exploration",
+   "arbitrary seeded pre-history (partial streams, merges, finished/unfinished densification, register overflow, half-consumed permutations, extra restarts) then reinit/reset (or ProbOrdMinHash2's self-clearing hash_set) then a seeded delivery; oracle = all views equal those of a freshly constructed twin given the same deliveries in the same order and chunking; sampling, not proof",
+   "only sketches are compared (not diagnostics such as get_low_sketch); finishing an empty densified stream is excluded from histories (C09)",
+   TECH + ": restart fault after seeded histories, fresh-twin equality oracle"),
+ "C15": ("exploration",
+   "seeded update/reset histories (tie-rich value pools, sibling-pair sweeps, descending runs, non-improving updates) over all small m, V in {f64,u32}; every slot, the maximum and is_update_possible compared with a vector-of-minima reference model after EVERY operation; plus the in-vivo invariant (reported maximum == max of registers) after every delivery of every weighted-stream run. The component is sequential: the simulator contributes history generation, the reference model and replay, no fault physics",
+   "the crate-private tracker is reached through the guarded public wrapper; no NaN offered",
+   TECH + ": seeded operation histories against an executable reference model"),
+ "C17": ("exploration",
+   "seeded draw/reset histories on a scripted generator (the rng argument is the seam) incl. forced extreme outputs: permutation per block, history independence after reset against a fresh instance fed the same generator output; uniformity decided exactly, not statistically: all m! choice sequences forced for m <= 6 (7 in thorough) and the measure of the generator values mapping to a choice located by bisection (up to m = 2^20)",
+   "exact uniformity sub-checks assume one next_u64 per draw and a monotone 52-bit mapping and skip themselves (counted) if that changes",
+   TECH + ": scripted-generator seam, seeded histories, exhaustive small-m enumeration"),
+ "C18": ("exploration",
+   "every Sig implementation on seeded values (empty, 1, odd, large vectors; multi-byte strings), directly and as ProbMinHash3aSha keys, executed under a tracking / poisoning / quarantining global allocator: bytes must equal the native-endian representation, no second free, no layout mismatch, freed-memory poison never returned; thorough tier adds Miri (abstract-machine simulator, many seeds)",
+   "memory errors are observed at the allocator seam (and by Miri in the thorough tier); reads of freed memory are seen through the poison pattern failing the byte oracle",
+   TECH + ": allocator seam (tracking/poisoning/quarantine) under seeded workloads, Miri in thorough"),
  "C04": ("exploration",
    "seeded search over delivery schedules (reorder, duplicate, late re-delivery, chunking) for all five unweighted sketchers, 10 type instantiations x 3 element types x 7 hashers; oracle = exact equality of the real sketcher's final state with a fresh real sketcher fed the canonical delivery; sampling, not proof",
    "trusts the canonical delivery (sorted, one slice call) as the definition of the sketch of a set; f32 densified sketchers accept a proven true tie only",
